@@ -178,3 +178,32 @@ theorem enc4 (b0 b1 b2 b3 : UInt8) (h0 : 0xF0 ≤ b0.toNat ∧ b0.toNat ≤ 0xF4
     omega
 
 end GL
+
+namespace GL
+
+/-- what `decode1` answers for a non-empty string: either the first byte is not the start of a
+well-formed sequence (the replacement rune of width 1, one byte consumed), or a rune together with
+the bytes that encode it -/
+def DecValid (s : GoStr) (r : Rune) (t : GoStr) : Prop :=
+  s = r.enc ++ t ∧ encodeRune r.cp = r.enc ∧ validRune r.cp = true ∧ r.enc ≠ [] ∧
+  ¬ (r.width = 1 ∧ r.cp = 0xFFFD) ∧ (128 ≤ r.cp → ∀ b ∈ r.enc, 128 ≤ b.toNat)
+
+def DecInvalid (s : GoStr) (r : Rune) (t : GoStr) : Prop :=
+  ∃ b0, s = b0 :: t ∧ r.width = 1 ∧ r.cp = 0xFFFD
+
+theorem runeError_invalid (b0 : UInt8) (rest : GoStr) : DecInvalid (b0 :: rest) runeError rest :=
+  ⟨b0, rfl, rfl, rfl⟩
+
+theorem cont_iff (b : UInt8) : isCont b = true ↔ 0x80 ≤ b.toNat ∧ b.toNat ≤ 0xBF := by
+  simp only [isCont, Bool.and_eq_true, decide_eq_true_eq, UInt8.le_iff_toNat_le]
+  exact Iff.rfl
+
+theorem ite_toNat (c : Prop) [Decidable c] (a b : UInt8) : (if c then a else b).toNat = if c then a.toNat else b.toNat := by
+  split <;> rfl
+
+theorem u8_eq_iff (a : UInt8) (n : Nat) (h : n < 256) : a = UInt8.ofNat n ↔ a.toNat = n := by
+  constructor
+  · intro e; subst e; simp [Nat.mod_eq_of_lt h]
+  · intro e; subst e; simp
+
+end GL
